@@ -217,6 +217,51 @@ class XPath2Parser(XPath1Parser):
         except (AttributeError, NotImplementedError):
             return self._xsd_version
 
+    @staticmethod
+    def blank_comments(source: str) -> str:
+        """
+        Replaces the comments of an XPath 2.0+ expression with blanks, keeping the
+        positions of the other characters. A comment is lexical whitespace whatever
+        it contains (an apostrophe, '::)' or a newline), but the tokenizer can't see
+        where a comment ends because its content is not made of tokens. String
+        literals are left untouched and an unterminated comment is left in place,
+        so that the parser reports it.
+        """
+        if '(:' not in source:
+            return source
+
+        chars = list(source)
+        length = len(source)
+        quote: str | None = None
+        level = 0
+        k = 0
+        while k < length:
+            ch = source[k]
+            if level:
+                if source.startswith('(:', k) or source.startswith(':)', k):
+                    level += 1 if ch == '(' else -1
+                    chars[k] = chars[k + 1] = ' '
+                    k += 2
+                    continue
+                elif ch not in '\n\r\t':
+                    chars[k] = ' '
+            elif quote is not None:
+                if ch == quote:
+                    quote = None
+            elif ch in '"\'':
+                quote = ch
+            elif source.startswith('(:', k):
+                level = 1
+                chars[k] = chars[k + 1] = ' '
+                k += 2
+                continue
+            k += 1
+
+        return source if level else ''.join(chars)
+
+    def parse(self, source: str) -> XPathToken:
+        return super().parse(self.blank_comments(source))
+
     def advance(self, *symbols: str,  message: str | None = None) -> XPathToken:
         super(XPath2Parser, self).advance(*symbols, message=message)
 
